@@ -40,6 +40,12 @@ def unop (F : FieldImpl) (op : String) (a : Nat) : String :=
   | "exp7" => if F.name == "f64" then elem F (Gen.F64.exp7 a) else "bad-op"
   | _ => "bad-op"
 
+/-- residues of `a += b`, `a -= b`, `a *= b`, `a /= b`, `a.mul_base(b)` -/
+def asgLine (F : FieldImpl) (a b : Nat) : String :=
+  match F.div a b with
+  | .done q => s!"{F.asInt (F.add a b)} {F.asInt (F.sub a b)} {F.asInt (F.mul a b)} {F.asInt q} {F.asInt (F.mul a b)}"
+  | .out => "hang"
+
 /-- parse one token of an operation sequence -/
 def seqOp? : String → Option FieldImpl.SeqOp
   | "add" => some .add
@@ -94,6 +100,47 @@ def handleF (F : FieldImpl) : List String → String
     match a.toNat?, e.toNat? with
     | some a, some e => s!"{F.asInt (F.exp a e)}"
     | _, _ => "bad-op"
+  -- twin entry points: `+=`, `-=`, `*=`, `/=` and `ExtensionOf::mul_base` denote add / sub / mul / div / mul
+  | ["asg", a, b] =>
+    match a.toNat?, b.toNat? with
+    | some a, some b => asgLine F (F.new a) (F.new b)
+    | _, _ => "bad-op"
+  | ["rasg", a, b] =>
+    match a.toNat?, b.toNat? with
+    | some a, some b => asgLine F a b
+    | _, _ => "bad-op"
+  -- conjugate, base_element(0), as_int, Display, Debug, slice views: the residue, seven times
+  | ["view", a] =>
+    match a.toNat? with
+    | some a => " ".intercalate (List.replicate 7 (toString (F.asInt (F.new a))))
+    | _ => "bad-op"
+  | ["rview", a] =>
+    match a.toNat? with
+    | some a => " ".intercalate (List.replicate 7 (toString (F.asInt a)))
+    | _ => "bad-op"
+  | ["basee", i, a] =>
+    match i.toNat?, a.toNat? with
+    | some i, some a => if i == 0 then toString (F.asInt a) else "panic"
+    | _, _ => "bad-op"
+  -- elements_as_bytes: the internal words; write_many: the canonical encodings
+  | "elems" :: raws =>
+    match natList raws with
+    | some ws =>
+      if ws.all F.inv? then
+        s!"{hexOf (ws.flatMap (leBytes F.bytes))} {hexOf (ws.flatMap F.toBytes)}"
+      else "bad-op"
+    | none => "bad-op"
+  -- from_bytes_with_padding: fewer than ELEMENT_BYTES bytes, zero-padded, then `try_from`
+  | ["padded", h] =>
+    match unhex h with
+    | some bs =>
+      if bs.length ≥ F.bytes then "panic"
+      else match F.tryFromBytes (bs ++ List.replicate (F.bytes - bs.length) 0) with
+        | .ok r => s!"ok {F.asInt r}"
+        | .err => "panic"
+    | none => "bad-op"
+  | ["const2"] =>
+    s!"{F.M} {Nat.log2 F.M + 1} 1 {F.asInt (F.new 0)} {F.bytes} {F.bytes}"
   | ["mulsmall", a, k] =>
     match a.toNat?, k.toNat? with
     | some a, some k => if F.name == "f64" then elem F (Gen.F64.mul_small a k) else "bad-op"
